@@ -30,6 +30,12 @@ def run_property(pid, repo, tier, seed, only_key=None):
                     forwarding.rule_forwarding(ctx, 'RF')
                     explanation += (' RF: a frozen table of option-forwarding instances (sa/tables/forwarding.json) is re-decided from the source: every call of the '
                                     'worker inside the listed function still receives the caller\'s option (verbatim, or derived from it where the function normalises it).')
+            if not only_key or '-RD|' in only_key:
+                from . import defaults_rule
+                if any(pid in defaults_rule.owners(q) for q in defaults_rule.load_table()):
+                    defaults_rule.rule_defaults(ctx, 'RD')
+                    explanation += (' RD: the literal defaults of the public entry points this property runs through are compared with the frozen table '
+                                    'sa/tables/defaults.json (a default is what every call that omits the argument means).')
             if not only_key or '-RS|' in only_key:
                 from . import scenario_rule, scenarios_def
                 if any(pid in props for props, _ in scenarios_def.SCENARIOS.values()):
